@@ -14,9 +14,18 @@ import (
 type ctxForm struct {
 	name    string
 	tok     ref.CtxToken
-	head    string // keyword + parameters (one line)
-	body    string // body lines that follow (may be empty)
-	noParen bool   // the form has no explicit variant
+	head    string   // keyword + parameters (one line)
+	body    string   // body lines that follow (may be empty)
+	noParen bool     // the form has no explicit variant
+	alts    []string // other spellings of the head line (the first one is head)
+}
+
+// headAt: the spelling used at a place (salt) of a sequence.
+func (f *ctxForm) headAt(salt int) string {
+	if len(f.alts) == 0 {
+		return f.head
+	}
+	return f.alts[salt%len(f.alts)]
 }
 
 func ctxForms() []ctxForm {
@@ -50,6 +59,25 @@ func ctxForms() []ctxForm {
 	}
 	for _, m := range []string{"GET", "POST", "PUT", "PATCH", "DELETE"} {
 		f = append(f, ctxForm{name: m, head: m}, ctxForm{name: m + "+path", head: m + " /m"})
+	}
+	// other spellings of the same directive line: what stands on the line does not change where the directive may stand
+	alts := map[string][]string{
+		"HTTP-response-code": {"200 any", "200 @t", "200 \"@t\"", "200 [@t]", "200 \"[@t]\"", "200 empty", "201 \"any\"", "404 any // note", "200 \"[@t]\" // note"},
+		"Request":            {"Request any", "Request @t", "Request \"[@t]\"", "Request [@t]", "Request empty", "Request \"@t\""},
+		"Body":               {"Body any", "Body @t", "Body \"[@t]\"", "Body [@t]", "Body \"any\"", "Body empty // note"},
+		"TYPE":               {"TYPE @t any", "TYPE @t \"any\"", "TYPE @t empty", "TYPE \"@t\" any"},
+		"URL":                {"URL /p", "URL \"/p\"", "URL /p // note"},
+		"SERVER":             {"SERVER @s", "SERVER \"@s\"", "SERVER @s // note"},
+		"TAG":                {"TAG @g", "TAG \"@g\"", "TAG @g /* note */"},
+		"Tags":               {"Tags @g", "Tags @g @h", "Tags \"@g\""},
+		"Method":             {"Method mm", "Method \"mm\"", "Method mm // note"},
+	}
+	for i := range f {
+		f[i].alts = alts[f[i].name]
+		if strings.HasSuffix(f[i].name, "+path") {
+			m := strings.TrimSuffix(f[i].name, "+path")
+			f[i].alts = []string{m + " /m", m + " \"/m\"", m + " /m // note", m + " /m /* note */"}
+		}
 	}
 	for i := range f {
 		k := f[i].name
@@ -95,7 +123,7 @@ func (t ctxTokenR) label() string {
 func renderCtx(seq []ctxTokenR) (doc string, kwLine, parenLine []int) {
 	var sb strings.Builder
 	line := 1
-	for _, t := range seq {
+	for pos, t := range seq {
 		kwLine = append(kwLine, line)
 		pl := 0
 		if t.close {
@@ -105,7 +133,7 @@ func renderCtx(seq []ctxTokenR) (doc string, kwLine, parenLine []int) {
 			sb.WriteString("(\n")
 			line++
 		} else {
-			sb.WriteString(t.form.head + "\n")
+			sb.WriteString(t.form.headAt(pos*5+len(seq)*3) + "\n")
 			line++
 			if t.explicit {
 				pl = line
@@ -522,7 +550,7 @@ func c11MultiFile(c *fw.Ctx, al []ctxTokenR) {
 						sb.WriteString(")\n")
 						line++
 					} else {
-						sb.WriteString(t.form.head + "\n")
+						sb.WriteString(t.form.headAt(it.tok*5+len(seq)*3) + "\n")
 						line++
 						if t.explicit {
 							p.parLine = line
